@@ -579,9 +579,16 @@ pub fn run(ctx: &Ctx) -> (Acc, String, bool) {
         "(:a = (1 2 3), :b = \"héllo\") ~> { a b $ }",
         "\"abc\" <> \"def\" <> (1, 2)",
     ];
-    let acc = run_cases(ctx, graphs + programs + fixed.len() as u64, |i, acc| {
+    let scripts = crate::corpus::repo_scripts();
+    let acc = run_cases(ctx, graphs + programs + fixed.len() as u64 + scripts.len() as u64, |i, acc| {
         let mut r = Rng::for_case(seed, i);
-        if i < graphs {
+        if i >= graphs + programs + fixed.len() as u64 {
+            // the repository's own scripts: optimize at every step boundary
+            let (_, text) = &scripts[(i - graphs - programs - fixed.len() as u64) as usize];
+            program_case(text.trim_end(), &V::Unit, true, &mut r, acc);
+            acc.nontrivial += 1;
+            acc.count("repo_scripts_run_with_optimize_everywhere");
+        } else if i < graphs {
             graph_case(&mut r, acc);
             acc.distinct.insert(i);
         } else if i < graphs + programs {
@@ -603,7 +610,7 @@ pub fn run(ctx: &Ctx) -> (Acc, String, bool) {
         }
     });
     let rule = format!(
-        "(a) {} random value graphs on BasicGarnishData (4..43 construction steps over leaves of every kind, pairs / keyed lists / concatenations / slices / partials sharing earlier values, registered symbol names; values pushed on operand stack, input-value stack, frames; random retention point; 1..4 clone_data calls; 1..3 rounds of optimize with 0..5 extra roots, some already on a stack, followed by further construction); every register, input value, frame, symbol name, retained value and mapped root is read back and compared with before and with a shadow model; block-layout invariant after every optimize. (b) {} random programs + {} fixed ones: undisturbed run vs runs with optimize injected before step k (every k up to 48 steps, sampled beyond), before every step, before every third step; value and step count compared.",
+        "(a) {} random value graphs on BasicGarnishData (4..43 construction steps over leaves of every kind, pairs / keyed lists / concatenations / slices / partials sharing earlier values, registered symbol names; values pushed on operand stack, input-value stack, frames; random retention point; 1..4 clone_data calls; 1..3 rounds of optimize with 0..5 extra roots, some already on a stack, followed by further construction); every register, input value, frame, symbol name, retained value and mapped root is read back and compared with before and with a shadow model; block-layout invariant after every optimize. (b) {} random programs + {} fixed ones + every script under the repository's tests/scripts: undisturbed run vs runs with optimize injected before step k (every k up to 48 steps, sampled beyond), before every step, before every third step; value and step count compared.",
         graphs, programs, fixed.len()
     );
     (acc, rule, false)
